@@ -11,7 +11,7 @@ import z3
 
 from . import seqops
 from .core import PyRaise
-from .values import (BoundMethod, Closure, DictCell, EnumerateV, ExcV, MapCell, MapElem, ObjCell, OldView, Opaque, RangeV,
+from .values import (BoundMethod, Closure, DictCell, EnumerateV, ExcV, MapCell, MapElem, ObjCell, SymKey, OldView, Opaque, RangeV,
                      Ref, SeqCell, SeqV, SuperV, Sym, Unsupported, fpval, is_scalar, kind_of, mk, to_term)
 
 _CMP = {ast.Eq: "==", ast.NotEq: "!=", ast.Lt: "<", ast.LtE: "<=", ast.Gt: ">", ast.GtE: ">="}
@@ -441,13 +441,22 @@ class ExprMixin:
                     if p is None:
                         cs = []
                         for k in cell.d:
-                            c = self.equals(k, item)
+                            c = self.equals(k.sym if isinstance(k, SymKey) else k, item)
                             if c is True:
                                 return True
                             if c is not False:
                                 cs.append(c.t)
                         return mk("bool", z3.Or(*cs)) if cs else False
                     item = p
+                if any(isinstance(k, SymKey) for k in cell.d):
+                    cs = []
+                    for k in cell.d:
+                        c = self.equals(k.sym if isinstance(k, SymKey) else k, item)
+                        if c is True:
+                            return True
+                        if c is not False:
+                            cs.append(c.t)
+                    return mk("bool", z3.Or(*cs)) if cs else False
                 return self.hashable_key(item) in cell.d
             if isinstance(cell, MapCell):
                 return mk("bool", z3.Select(cell.dom, self.map_key(cell, item)))
@@ -646,7 +655,7 @@ class ExprMixin:
             cell = self.path.cell(base)
             if isinstance(cell, DictCell):
                 key = self.dict_key(cell, idx)
-                if key not in cell.d:
+                if key is _MISSING or key not in cell.d:
                     raise PyRaise(ExcV(KeyError, (idx,)))
                 return cell.d[key]
             if isinstance(cell, MapCell):
@@ -678,7 +687,13 @@ class ExprMixin:
             raise PyRaise(ExcV(type(exc), exc.args))
 
     def dict_key(self, cell, idx):
-        """Resolve a (possibly symbolic) key against a concrete-keyed dict by forking over the keys."""
+        """Resolve a (possibly symbolic) key against the stored keys (concrete or SymKey) by forking over them."""
+        if any(isinstance(k, SymKey) for k in cell.d) and not isinstance(idx, (Sym, SeqV)):
+            for k in cell.d:
+                c = self.equals(k.sym if isinstance(k, SymKey) else k, idx)
+                if c is True or (c is not False and self.path.decide(self.truthy(c))):
+                    return k
+            return _MISSING
         if isinstance(idx, (Sym, SeqV)):
             p = seqops.to_py(idx) if isinstance(idx, SeqV) else None
             if p is not None:
@@ -689,8 +704,8 @@ class ExprMixin:
                 except Unsupported:
                     pass
             for k in cell.d:
-                c = self.equals(k, idx)
-                if self.path.decide(self.truthy(c)):
+                c = self.equals(k.sym if isinstance(k, SymKey) else k, idx)
+                if c is True or (c is not False and self.path.decide(self.truthy(c))):
                     return k
             return _MISSING
         return self.hashable_key(idx)
